@@ -17,6 +17,7 @@ limitations under the License.
 package action
 
 import (
+	"fmt"
 	"sort"
 	"strings"
 	"time"
@@ -62,6 +63,10 @@ func (g *GetMetadata) Run(name string) (*Metadata, error) {
 	rel, err := g.cfg.releaseContent(name, g.Version)
 	if err != nil {
 		return nil, err
+	}
+
+	if rel.Chart == nil || rel.Chart.Metadata == nil || rel.Info == nil {
+		return nil, fmt.Errorf("release %q revision %d is incomplete: chart metadata or info missing", rel.Name, rel.Version)
 	}
 
 	return &Metadata{
